@@ -729,6 +729,15 @@ class ndarray:
     def __floordiv__(self, o):
         return self._binop(o, "//")
 
+    def __rfloordiv__(self, o):
+        return self._binop(o, "//", True)
+
+    def __mod__(self, o):
+        return self._binop(o, "%")
+
+    def __rmod__(self, o):
+        return self._binop(o, "%", True)
+
     def __lt__(self, o):
         return self._binop(o, "<")
 
@@ -907,7 +916,7 @@ def _raw_div(x, y):
 
 def _pyop(op, x, y):
     import operator
-    f = {"+": operator.add, "-": operator.sub, "*": operator.mul, "/": operator.truediv, "//": operator.floordiv,
+    f = {"+": operator.add, "-": operator.sub, "*": operator.mul, "/": operator.truediv, "//": operator.floordiv, "%": operator.mod,
          "<": operator.lt, "<=": operator.le, ">": operator.gt, ">=": operator.ge, "==": operator.eq,
          "!=": operator.ne}[op]
     return f(x, y)
@@ -2219,7 +2228,18 @@ def _ma_diff(x, n=1, axis=-1):
     return diff(x)
 
 
-ma = types.SimpleNamespace(
+class _Namespace(types.SimpleNamespace):
+    """sub-namespace of the model (np.ma, np.lib...): unknown names poison the path instead of looking like an AttributeError of
+    the code under analysis"""
+
+    def __getattr__(self, name):
+        from .values import UnsupportedAttribute
+        if name.startswith("__"):
+            raise AttributeError(name)
+        raise UnsupportedAttribute(f"numpy.{self.__dict__.get('_nsname', 'ma')}.{name}")
+
+
+ma = _Namespace(
     MaskedArray=MaskedArray, masked_array=_ma_array, array=_ma_array, masked=masked, nomask=nomask,
     masked_invalid=masked_invalid, masked_where=masked_where,
     ones=lambda shape, dtype=float: _ma_full(shape, 1, dtype),
@@ -2374,6 +2394,33 @@ def count_nonzero(a, axis=None):
     return acc
 
 
+def _ma_allequal(a, b, fill_value=True):
+    """numpy.ma.allequal: masked entries (in either array) count as equal when fill_value is True"""
+    a = a if isinstance(a, ndarray) else asarray(a)
+    b = b if isinstance(b, ndarray) else asarray(b)
+    if a.a.shape != b.a.shape:
+        try:
+            _np.broadcast_shapes(a.a.shape, b.a.shape)
+        except ValueError:
+            raise ValueError("operands could not be broadcast together")
+    m = _binary("|", getmaskarray(a), getmaskarray(b))
+    eq = _binary("==", getdata(a), getdata(b))
+    terms = []
+    mm, ee = _np.broadcast_arrays(m.a, eq.a)
+    for p in _np.ndindex(mm.shape):
+        terms.append(mk_if(mm[p].b, TRUE if fill_value else FALSE, ee[p].b))
+    return SBool(mk_and(*terms))
+
+
+ma.allequal = _ma_allequal
+ma.copy = lambda a: (a.copy() if isinstance(a, ndarray) else _ma_array(a))
+ma.ravel = lambda a: a.flatten()
+ma.size = lambda a: (a.size if isinstance(a, ndarray) else asarray(a).size)
+ma.shape = lambda a: (a.shape if isinstance(a, ndarray) else asarray(a).shape)
+ma.allclose = lambda a, b, masked_equal=True, rtol=1e-5, atol=1e-8: SBool(mk_and(*[
+    mk_if(m.b, TRUE if masked_equal else FALSE, c.b) for m, c in zip(_binary("|", getmaskarray(a if isinstance(a, ndarray) else asarray(a)),
+                                                                          getmaskarray(b if isinstance(b, ndarray) else asarray(b))).a.flat,
+                                                                  isclose(getdata(a), getdata(b), rtol, atol).a.flat)]))
 ma.where = _ma_where
 ma.count = lambda a, axis=None: (a.count(axis) if (isinstance(a, ndarray) and a._is_masked) else SInt(asarray(a).size))
 ma.asarray = lambda a, dtype=None: _ma_array(a, dtype=dtype)
